@@ -145,7 +145,9 @@ def run(original_args) -> int:
     tool_result_files_map["sonar"].extend(argv.sonar_hotspots_json or [])
     tool_result_files_map["defectdojo"] = argv.defectdojo_findings_json or []
 
-    for file_name in itertools.chain(*tool_result_files_map.values()):
+    for file_name in itertools.chain(
+        *tool_result_files_map.values(), argv.contrast_vulnerabilities_xml or []
+    ):
         if not os.path.exists(file_name):
             logger.error(
                 f"FileNotFoundError: [Errno 2] No such file or directory: '{file_name}'"
